@@ -217,6 +217,22 @@ func c03Forwarded(g *getShape, ret *ssa.Return) (string, string) {
 			return "", fmt.Sprintf("result #%d is field %s, expected %s", i, names[i], want[i])
 		}
 	}
+	// a copy of another local bundle (a value receiver, a parameter object): look at the original
+	for i := 0; i < 3; i++ {
+		ws := wholeStores(a)
+		if len(ws) != 1 {
+			break
+		}
+		ld, ok := ws[0].(*ssa.UnOp)
+		if !ok || ld.Op != token.MUL {
+			break
+		}
+		src, ok := ld.X.(*ssa.Alloc)
+		if !ok {
+			break
+		}
+		a = src
+	}
 	// filled as a whole from cache.Get (under ok) …
 	if ws := wholeStores(a); len(ws) == 1 {
 		if ex, ok := ws[0].(*ssa.Extract); ok && ex.Index == 0 {
@@ -781,6 +797,14 @@ func c03R4(c *Ctx) {
 			px, py := path(cmp.X), path(cmp.Y)
 			if strings.HasSuffix(px, ".&Essence.*") || strings.HasSuffix(py, ".&Essence.*") {
 				okEq = true
+			}
+		}
+		// or the library's membership test of the essence in the list
+		if call, isCall := unwrapLoad(ret.Results[0]).(*ssa.Call); isCall {
+			if f := calleeObj(&call.Call); f != nil && f.Pkg() != nil && (f.Pkg().Path() == "slices" || f.Pkg().Path() == "golang.org/x/exp/slices") && f.Name() == "Contains" && len(call.Call.Args) == 2 {
+				if unwrapLoad(call.Call.Args[0]) == ssa.Value(mm.Params[1]) && strings.HasSuffix(path(call.Call.Args[1]), ".&Essence.*") {
+					okEq = true
+				}
 			}
 		}
 		c.check(okEq, mname+"/return:true", P.InstrPos(ret), mname, "true only under essence == element of the list", "MediaType.Matches can report a match without an equality test of the essence against a list element")
